@@ -57,7 +57,7 @@ VALID = {
 
 BAD_OPTIONS = [('bogus', 1), ('numprocesses', 'x'), ('uid', 'nosuchuser-xyz'), ('gid', 'nosuchgroup-xyz'),
                ('hooks', {'before_start': 'no.such.module.fn'}), ('hooks.before_start', 'no.such.module.fn'),
-               ('hooks', {'bogus_hook': 'x.y'}), ('stop_signal', 'term'), ('env', 'x'), ('env', {'A': 1}),
+               ('hooks', {'bogus_hook': 'x.y'}), ('stop_signal', 'term'), ('stop_signal', 'SIGBOGUS'), ('stop_signal', 99999), ('env', 'x'), ('env', {'A': 1}),
                ('rlimit_bogus', 1), ('graceful_timeout', 'x'), ('shell', 'yes'), ('stdout_stream', {'filename': 'x'}),
                ('max_retry', None), ('singleton', True), ('stdout_stream.class', 'no.such.Stream')]
 
